@@ -809,6 +809,7 @@ type tarMember struct {
 	name string // as in the header
 	dir  bool
 	data string
+	link string // symlink target, verbatim
 }
 
 func buildTarSpec(ms []tarMember) []byte {
@@ -816,13 +817,16 @@ func buildTarSpec(ms []tarMember) []byte {
 	w := gnutar.NewWriter(&buf)
 	for _, m := range ms {
 		h := &gnutar.Header{Name: m.name, Mode: 0644, ModTime: time.Unix(1000000000, 0), Format: gnutar.FormatPAX}
-		if m.dir {
+		switch {
+		case m.dir:
 			h.Typeflag, h.Mode = gnutar.TypeDir, 0755
-		} else {
+		case m.link != "":
+			h.Typeflag, h.Mode, h.Linkname = gnutar.TypeSymlink, 0777, m.link
+		default:
 			h.Typeflag, h.Size = gnutar.TypeReg, int64(len(m.data))
 		}
 		w.WriteHeader(h)
-		if !m.dir {
+		if !m.dir && m.link == "" {
 			w.Write([]byte(m.data))
 		}
 	}
@@ -863,6 +867,7 @@ func (e *c05Env) tarMembersKept(c *c05Case, tb []byte, extra ...string) {
 		rel  string
 		kind byte
 		sum  [32]byte
+		link string
 	}
 	var ms []mem
 	var names []string
@@ -873,7 +878,7 @@ func (e *c05Env) tarMembersKept(c *c05Case, tb []byte, extra ...string) {
 		if err != nil {
 			break
 		}
-		m := mem{rel: filepath.Clean(h.Name), kind: h.Typeflag}
+		m := mem{rel: filepath.Clean(h.Name), kind: h.Typeflag, link: h.Linkname}
 		if h.Typeflag == gnutar.TypeReg {
 			b, _ := io.ReadAll(r)
 			m.sum = sha256.Sum256(b)
@@ -912,6 +917,13 @@ func (e *c05Env) tarMembersKept(c *c05Case, tb []byte, extra ...string) {
 	var missing []string
 	for _, m := range ms {
 		p := filepath.Join(dst, m.rel)
+		if m.kind == gnutar.TypeSymlink {
+			if t, err := os.Readlink(p); err == nil && t != m.link {
+				c.Detail = fmt.Sprintf("member %q: target %q in the tar stream, %q after desync tar --input-format tar + untar", m.rel, m.link, t)
+				e.r.Fail("predicate", "tarin/symlink-target", "a symlink of the tar stream comes out with another target: "+c.Detail, c)
+				return
+			}
+		}
 		fi, err := os.Lstat(p)
 		ok := err == nil
 		if ok {
@@ -966,6 +978,16 @@ func (e *c05Env) routeTarUngroupedFamily() {
 	for _, name := range []string{"minimal", "appended", "name-sorted", "breadth-first", "depth-first-reversed", "depth-first"} {
 		c := &c05Case{Route: "tar-members-" + name, Digest: "sha512-256", Entries: len(fam[name])}
 		e.tarMembersKept(c, buildTarSpec(fam[name]))
+	}
+	// symlinks whose targets are not clean paths: kept byte for byte
+	{
+		ms := []tarMember{d("./"), d("./sub/")}
+		for i, t := range c05UncleanTargets {
+			ms = append(ms, tarMember{name: fmt.Sprintf("./sub/l%02d", i), link: t})
+		}
+		ms = append(ms, f("./z"))
+		c := &c05Case{Route: "tar-members-symlink-targets", Digest: "sha512-256", Entries: len(ms)}
+		e.tarMembersKept(c, buildTarSpec(ms))
 	}
 	// without a root member, with --tar-add-root
 	c := &c05Case{Route: "tar-members-add-root", Digest: "sha512-256", Entries: 4}
